@@ -309,7 +309,22 @@ func TestC08Quarantine(t *testing.T) {
 		acts["corrupt"] = corruptAndDetect
 		t.Repeat(acts)
 		h.Quiesce()
+		if persistent {
+			w.Drain()
+		}
 		w.CheckMonitors()
+		// "The store keeps accepting uploads afterwards": the reaction to a
+		// corruption must not pin blocks. At quiescence no reader or writer
+		// is left over and the allocator can hand out exactly the device's
+		// blocks minus those of the block list.
+		if detections > 0 {
+			if r, wr := w.St.Alloc.OpenReaders(), w.St.Alloc.ActiveWriters(); r != 0 || wr != 0 {
+				t.Fatalf("C08: after handling corruption %d block reader(s) and %d block writer(s) are still open at quiescence: blocks stay pinned and the store will run out of space\n%s", r, wr, w.Render())
+			}
+			if free, want := w.St.Alloc.ProbeFree(), cfg.BlockCount()-len(w.Live); free != want {
+				t.Fatalf("C08: after handling corruption the allocator can hand out %d blocks, want %d (device %d, block list %d): capacity lost\n%s", free, want, cfg.BlockCount(), len(w.Live), w.Render())
+			}
+		}
 
 		c.ClassIf(detections > 0, "corruption_detected")
 		c.ClassIf(detections > 1, "several_corruptions")
